@@ -23,15 +23,23 @@ RULE = ("registration histories on a private UnitDatabase(): bounded-exhaustive 
         "base, foreign symbols, legacy spellings, override, from_category with partial overrides, limits, every "
         "rejected-argument class) to depth 3 (quick) / 4 (thorough, last call from an 8-call sub-alphabet), random "
         "histories to depth 40 with arbitrary argument combinations; after the history the complete registry and ~45 "
-        "getter/construction queries are compared; plus sessions (depth 2 exhaustive with a category / 3 thorough, and random) "
+        "getter/construction queries (incl. GetDefaultValue/GetDefaultUnit/FindUnitCase/FindSimilarUnitMatches/CheckValueForCategory, GetBaseUnit of an unknown type) are compared; "
+        "AddCategory with EXPLICIT None for is_min_exclusive/is_max_exclusive/caption with and without from_category (8-call sub-alphabet to depth 3 / 4, and in the random calls); plus sessions (depth 2 exhaustive with a category / 3 thorough, and random) "
         "in which Scalar(1.0, u, c) is attempted for the named categories x units before every call and after the last "
-        "(a unit that failed before its registration must work after it); distinct = distinct history; non-trivial = at least one accepted "
+        "(a unit that failed before its registration must work after it); plus families of 2-3 private databases alive at the same time that share quantity-type and category names but hold "
+        "different units (both registered completely, then every pair of lookups/creations addressed to either database with no registration "
+        "in between; random interleavings of registrations and lookups): each must behave as if alone; "
+        "distinct = distinct history; non-trivial = at least one accepted "
         "and (depth>1) one rejected or overriding call")
 EXHAUSTIVE = {"quick": False, "thorough": False}
 ASSUMPTIONS = ["conversion formulas of registered units are strings (callables are passed through unchecked by AddUnit)",
                "names are ASCII (str.title of the default caption is modelled on ASCII bytes)",
                "the empty string is not used as a quantity type (None and '' coincide in the model's symbol code 0)",
-               "float results within K*eps*M of the exact model (checked, not proved)"]
+               "float results within K*eps*M of the exact model (checked, not proved)",
+               "dead lines of unit_database.py no input reaches: 796 (`unit = name`: the class check above raises TypeError "
+               "for None first), 810 (second duplicate check: unreachable from a well-formed registry, see the model's addInfo "
+               "and rejected_step_id), 850 (`return None` after CheckQuantityType, which raises), 628 (None as a category key: "
+               "CheckType rejects it)"]
 
 TYPES = ["length", "time", "x"]
 SYMS = ["m", "cm", "lbmol", "s", "lbmole"]
@@ -92,6 +100,10 @@ def _queries(types=TYPES, syms=SYMS, cats=CATS):
     qs = [dict(q="allUnits"), dict(q="allUnitNames"), dict(q="quantityTypes"), dict(q="categories")]
     for c in cats:
         qs += [dict(q="validUnits", c=c), dict(q="catInfo", c=c), dict(q="createC", c=c)]
+    for c in cats[:3]:
+        qs += [dict(q="defaultValue", c=c), dict(q="defaultUnit", c=c), dict(q="findUnitCase", c=c, u="CM"),
+               dict(q="checkValueFor", c=c, u="cm", x=7.0)]
+    qs += [dict(q="findSimilar", u="LB"), dict(q="findSimilar", u="c"), dict(q="baseUnit", qt="nope")]
     for t in types:
         qs += [dict(q="baseUnit", qt=t), dict(q="units", qt=t)]
     for u in syms:
@@ -165,6 +177,17 @@ def _rnd_op(rng):
     return _cat(c, rng.choice(types + ["nope", ""]) if rng.random() < 0.9 else rng.choice(cats), **kw)
 
 
+def _rnd_op_n(rng):
+    """`_rnd_op` (kept as it is: C19 draws from it too), plus EXPLICIT None for the exclusivity flags / the caption of
+    an AddCategory (copied from the source category when from_category is given)"""
+    op = _rnd_op(rng)
+    if op["k"] == "cat":
+        for key in ("is_min_exclusive", "is_max_exclusive", "caption"):
+            if rng.random() < 0.12:
+                op["kw"][key] = None
+    return op
+
+
 def _rnd_queries(rng):
     types = TYPES + ["Unknown"]
     syms = SYMS + ["Mcf", "1000ft3", "<unknown>", "degC", "km"]
@@ -190,7 +213,7 @@ def _random_histories(ctx, salt, n, maxlen):
         if rng.random() < 0.7:
             ops += [_base("length", "m"), _base("time", "s")][: rng.randint(1, 2)]
         for _ in range(rng.randint(1, maxlen)):
-            ops.append(_rnd_op(rng))
+            ops.append(_rnd_op_n(rng))
         yield _history(ops, _rnd_queries(rng), tag="random")
 
 
@@ -235,12 +258,41 @@ def _probed_cases(ctx, salt, depth, n_random):
     for _ in range(n_random):
         ops = [_base("length", "m"), _cat(rng.choice(["length", "depth"]), "length")]
         for _ in range(rng.randint(1, 8)):
-            ops.append(_rnd_op(rng))
+            ops.append(_rnd_op_n(rng))
         yield _probed(ops)
+
+
+def _family_cases(ctx, salt, depth, n_random):
+    """two or three private databases alive at the same time that share quantity-type and category names but hold
+    different units, used alternately (generators shared with C15)"""
+    import C15
+
+    yield from C15._family_cases(ctx, "14" + salt, depth, n_random)
+
+
+NONE_ALPHABET = [
+    _cat("depth", "length", min_value=0.0, is_min_exclusive=True, default_value=1.0, caption="Dp"),
+    _cat("depth", "length", max_value=9.0, is_max_exclusive=True, default_value=1.0, override=True),
+    _cat("c per d", from_category="depth", is_min_exclusive=None, is_max_exclusive=None, caption=None),
+    _cat("c per d", from_category="depth", is_min_exclusive=None, caption="", override=True, default_value=2.0),
+    _cat("c per d", from_category="depth", is_max_exclusive=None, default_value=0.0, override=True),
+    _cat("length", "length", is_min_exclusive=None, is_max_exclusive=None, caption=None),
+    _cat("time", from_category="c per d", is_min_exclusive=False, is_max_exclusive=None, caption=None),
+    _cat("time", from_category="nope", caption=None),
+]
+
+
+def _none_cases(depth):
+    """AddCategory with EXPLICIT None for is_min_exclusive / is_max_exclusive / caption, with and without from_category"""
+    for d in range(1, depth + 1):
+        for idx in itertools.product(range(len(NONE_ALPHABET)), repeat=d):
+            yield _history([_base("length", "m")] + [NONE_ALPHABET[i] for i in idx], tag="explicit-none")
 
 
 def cases(ctx):
     yield dict(op="shipped", _t=dict(tag="shipped"))
+    yield from _none_cases(3 if ctx.tier == "quick" else 4)
+    yield from _family_cases(ctx, ctx.tier[0], 2 if ctx.tier == "quick" else 3, 150 if ctx.tier == "quick" else 2000)
     yield from _probed_cases(ctx, ctx.tier[0], 2 if ctx.tier == "quick" else 3, 150 if ctx.tier == "quick" else 1500)
     if ctx.tier == "quick":
         yield from _exhaustive(3)
@@ -257,12 +309,16 @@ def model_line(c):
 
 
 def case_key(c):
-    return c["ops"] if c["op"] in ("reghist", "chist") else model_line(c)
+    return c["ops"] if c["op"] in ("reghist", "chist", "chistN") else model_line(c)
 
 
 def show(c):
     if c["op"] == "shipped":
         return "the shipped databases (POSC, POSC without categories, FillSimple)"
+    if c["op"] == "chistN":
+        import C15
+
+        return ["(%d private databases alive at the same time)" % c["n"]] + C15.show(c)
     return ([] if c["op"] == "reghist" else ["(Scalar(1.0, u, c) tried before every call)"]) + \
         [_show_op(o) for o in c["_t"]["ops"][:8]]
 
@@ -272,7 +328,7 @@ def _show_op(o):
         return "AddUnitBase(%r, %r, %r)" % (o["qt"], o["name"], o["unit"])
     if o["k"] == "unit":
         return "AddUnit(%r, %r, %r, %r, %r, default_category=%r)" % (o["qt"], o["name"], o["unit"], o["fb"], o["tb"], o.get("dc"))
-    return "AddCategory(%r, %s)" % (o["c"], ", ".join("%s=%r" % kv for kv in sorted(o["kw"].items())))
+    return "AddCategory(%r, %s)" % (o["c"], ", ".join("%s=%r" % kv for kv in sorted(o["kw"].items())))   # (None shown as given)
 
 
 # ------------------------------------------------------------------------------------ real side
@@ -310,6 +366,10 @@ def impl(c, ctx):
                              cats=len(db.categories_to_quantity_types), first=(fails + dfails)[:1],
                              defcat=not dfails, nodefcat=nodef)
         return res
+    if c["op"] == "chistN":
+        import C15
+
+        return C15.impl(c, ctx)
     if c["op"] == "chist":
         import C15
 
@@ -355,6 +415,10 @@ def agree(c, io, mo, ctx):
                 # (without categories the own default_category entries name nothing: by design no Scalar is built)
                 return "%s: Scalar(value, unit) builds for every unit: impl=%s model=%s" % (kind, a, b)
         return None
+    if c["op"] == "chistN":
+        import C15
+
+        return C15.agree(c, io, mo, ctx)
     if c["op"] == "chist":
         import C15
 
@@ -380,6 +444,10 @@ def nontrivial(c, io):
     if c["op"] == "shipped":
         return True
     outs = io["outs"]
+    if c["op"] == "chistN":
+        import C15
+
+        return C15.nontrivial(c, io)
     if c["op"] == "chist":
         # a creation that failed before a registration and is attempted again after it
         return any("err" in o for o in outs) and any("err" not in o and "q" in op for op, o in zip(c["_t"]["cops"], outs))
@@ -425,7 +493,55 @@ def _check_history(ops):
     return known_only
 
 
+def _check_family(ops, n):
+    """C14 for `n` private databases alive at the same time, steps (registrations, lookups, creations; each carries
+    the index `db` of the database it is addressed to) interleaved: after EVERY step every one of the databases must be
+    well-formed and every unit / category registered in it must build a Scalar there - whatever the others were asked.
+    (The probing builds Scalars itself, so each prefix of the history is replayed on new databases and probed at its end.)"""
+    import C15
+    from barril.units.unit_database import UnitDatabase
+
+    shown = ["db%d: %s" % (o["db"], C15._show({k: v for k, v in o.items() if k != "db"})) for o in ops]
+    known_only = None
+    for upto in range(1, len(ops) + 1):
+        dbs = [_new_db() for _ in range(n)]
+        based = [set() for _ in range(n)]
+        for step, op in enumerate(ops[:upto]):
+            i = op["db"]
+            op = {k: v for k, v in op.items() if k != "db"}
+            last = step == upto - 1
+            before = [rc.snapshot(d) for d in dbs] if last else None
+            UnitDatabase.PushSingleton(dbs[i])
+            try:
+                o = rc.ask(dbs[i], op) if "q" in op else rc.apply_reg(dbs[i], op)
+            finally:
+                UnitDatabase.PopSingleton()
+            if "q" not in op and "err" not in o and op["k"] == "base":
+                based[i].add(op["qt"])
+            if not last:
+                continue
+            if "q" not in op and "err" in o and rc.snapshot(dbs[i]) != before[i]:
+                return dict(clause="a rejected registration changed the registry", step=step, call=shown[step],
+                            error=o["err"], history=shown[: step + 1])
+            for j in range(n):
+                if j != i and rc.snapshot(dbs[j]) != before[j]:
+                    return dict(clause="a call on one unit database changed the registry of another one", step=step,
+                                call=shown[step], database=j, history=shown[: step + 1])
+            # the databases the step was not addressed to first: the step must not have made them unusable
+            for j in [k for k in range(n) if k != i] + [i]:
+                for g in rc.registry_invariant(dbs[j], based[j]):
+                    f = dict(g)
+                    f.update(step=step, call=shown[step], database=j, history=shown[: step + 1])
+                    if not g.get("no_base_registered"):
+                        return f
+                    if known_only is None:
+                        known_only = f
+    return known_only
+
+
 def oracle(c, ctx):
+    if c["op"] == "chistN":
+        return _check_family(c["_t"]["ops"], c["_t"]["n"])
     if c["op"] == "shipped":
         for kind, db in _shipped_dbs():
             fails = rc.registry_invariant(db, None)
@@ -457,12 +573,28 @@ def table_candidates(ctx):
 
 def search(ctx):
     yield dict(op="shipped", _t=dict(tag="shipped"))
+    yield from _none_cases(3)
+    yield from _family_cases(ctx, "s", 2, 300)
     yield from _probed_cases(ctx, "s", 2, 300)
     yield from _exhaustive(3)
     yield from _random_histories(ctx, "s", 2000 if ctx.tier == "quick" else 20000, 30)
 
 
 def shrink(case, failure, ctx):
+    if case["op"] == "chistN":
+        import C15
+
+        ops, n = list(case["_t"]["ops"]), case["_t"]["n"]
+        i, budget = 0, 60
+        while i < len(ops) and budget > 0 and len(ops) > 1:
+            trial = ops[:i] + ops[i + 1:]
+            budget -= 1
+            f = _check_family(trial, n)
+            if f and not f.get("no_base_registered") and f["clause"] == failure["clause"]:
+                ops, failure = trial, f
+            else:
+                i += 1
+        return C15._family(ops, n, "shrunk"), failure
     if case["op"] not in ("reghist", "chist"):
         return case, failure
     ops = list(case["_t"]["ops"])
